@@ -20,7 +20,8 @@ RELATIONS = [
     "fresh", "collide_curie", "collide_uri", "collide_both_same", "collide_two",
     "case_only", "identical", "new_synonyms_only", "syn_vs_canon", "syn_case_only", "invalid", "same_object",
 ]
-PATTERNS = [None, None, "^\\d+$", "^[a-z]\\\\w+$", ""]     # "" is a legal, falsy pattern
+PATTERNS = [None, None, "^\\d+$", "^[a-z]\\\\w+$", "",     # "" is a legal, falsy pattern
+            "^[0-9+$", "(", "*a"]                            # not valid regular expressions (see `irregular`)
 
 
 # add_prefix documents its synonym parameters as Collection[str] | None: every real Collection is tried
@@ -29,6 +30,24 @@ COLLECTION_TYPES = {
     "list": list, "tuple": tuple, "set": set, "frozenset": frozenset,
     "dict_keys": lambda xs: dict.fromkeys(xs).keys(), "omit": list,
 }
+
+
+def irregular(rd):
+    """Submissions the property does not regulate: the record lists its own canonical value among its
+    synonyms (pydantic refuses that today; a tolerant add_prefix could filter it), or its pattern is
+    not a valid regular expression (accepted today; a validating library could refuse it). For these
+    the library may accept or refuse - but a refusal must change nothing, and an acceptance must be
+    consistent with the record that remains after dropping the redundant synonyms."""
+    import re
+
+    if rd["prefix"] in rd["prefix_synonyms"] or rd["uri_prefix"] in rd["uri_prefix_synonyms"]:
+        return "own_canonical_among_synonyms"
+    if rd.get("pattern"):
+        try:
+            re.compile(rd["pattern"])
+        except re.error:
+            return "pattern_is_not_a_regex"
+    return None
 
 
 def flag_kwargs(op, case_sensitive, merge):
@@ -81,11 +100,11 @@ def swapcase_variant(s):
 class C05Machine(Machine):
     PROP = PROP
     EXPECTED_PROBES = [
-        "reject_multi", "reject_nomerge", "reject_invalid", "merge_case_insensitive",
+        "reject_multi", "reject_nomerge", "merge_case_insensitive",
         "merge_adds_uri_synonym_only", "merge_keeps_pattern", "merge_into_start_built", "same_object_twice",
         "empty_prefix_token", "empty_uri_prefix_token", "start_from_chain", "start_from_subconverter",
         "retry_rejected_now_accepted", "retry_rejected_again_rejected", "other_side_of_rejected_appended", "other_side_of_rejected_merged_elsewhere",
-        "start_from_reconciliation", "submission_with_own_case_variants", "large_converter", "merge_into_record_past_position_256", "flag_left_to_its_default", "big_submission", "synonym_repeated_in_own_record", "start_converter_not_observed", "call_not_observed", "catch_up_observation", "focus_on_unmentioned_name_of_merge_target",
+        "start_from_reconciliation", "submission_with_own_case_variants", "large_converter", "merge_into_record_past_position_256", "flag_left_to_its_default", "big_submission", "synonym_repeated_in_own_record", "start_converter_not_observed", "call_not_observed", "catch_up_observation", "focus_on_unmentioned_name_of_merge_target", "irregular_submission_refused", "irregular_submission_accepted",
     ]
 
     @classmethod
@@ -490,7 +509,7 @@ class C05Machine(Machine):
             return {"start": kind, "n": len(dumps), "snap": None}
         self.snap = self._snapshot()
         self._check_consistent(self.snap, "start:" + kind, submitted=None, target=None)
-        return {"start": kind, "n": len(dumps), "snap": observe.digest(self.snap)}
+        return {"start": kind, "n": len(dumps), "snap": observe.stable_digest(self.snap)}
 
     def apply(self, op):
         if op["op"] == "start":
@@ -569,7 +588,18 @@ class C05Machine(Machine):
 
         before_tokens_c = set(self.model.all_curie_tokens())
         before_tokens_u = set(self.model.all_uri_tokens())
-        outcome, target = self.model.add(mrec, cs, merge)
+        irr = irregular(rd)
+        if irr:
+            self.probe("irregular_submission_" + ("refused" if err is not None else "accepted"))
+            if err is not None and isinstance(err, ValueError):
+                outcome, target = "reject_irregular", None        # refusing it is fine; nothing may have changed
+            else:
+                cleaned = MRecord(mrec.prefix, mrec.uri_prefix, mrec.prefix_synonyms - {mrec.prefix},
+                                  mrec.uri_prefix_synonyms - {mrec.uri_prefix}, mrec.pattern)
+                mrec = cleaned
+                outcome, target = self.model.add(cleaned, cs, merge)
+        else:
+            outcome, target = self.model.add(mrec, cs, merge)
         self.event(op["op"])
         self.event("model_" + outcome)
         if op.get("omit_defaults") and (cs is True or merge is False):
@@ -591,7 +621,7 @@ class C05Machine(Machine):
                 raise Violation(PROP, "accept_reject_mismatch", site,
                                 {"real": "rejected:" + type(err).__name__, "model": outcome, "op": op})
             self.n_reject += 1
-            if outcome != "reject_invalid" and not op.get("same_object"):
+            if outcome not in ("reject_invalid", "reject_irregular") and not op.get("same_object"):
                 self.rejected.append({"op": op["op"], "record": copy.deepcopy(op["record"]),
                                       "case_sensitive": cs, "merge": merge})
             if op.get("relation") == "retry_rejected":
@@ -645,7 +675,7 @@ class C05Machine(Machine):
             result = "accepted"
         self.snap = post
         self.note_state(self.model.keys(), op["op"], outcome)
-        return {"result": result, "model": outcome, "snap": observe.digest(post)}
+        return {"result": result, "model": outcome, "snap": observe.stable_digest(post)}
 
     def _call(self, op, rd, cs, merge):
         """The real call (shared by the observed and the unobserved path). Returns the exception or None."""
@@ -673,7 +703,15 @@ class C05Machine(Machine):
         """A call after which the converter is NOT looked at: only accept / reject is judged now; what
         the call did to the converter is judged at the next observation (catch-up)."""
         err = self._call(op, rd, cs, merge)
-        outcome, _ = self.model.add(mrec, cs, merge)
+        if irregular(rd):
+            if err is not None and isinstance(err, ValueError):
+                outcome = "reject_irregular"
+            else:
+                mrec = MRecord(mrec.prefix, mrec.uri_prefix, mrec.prefix_synonyms - {mrec.prefix},
+                               mrec.uri_prefix_synonyms - {mrec.uri_prefix}, mrec.pattern)
+                outcome, _ = self.model.add(mrec, cs, merge)
+        else:
+            outcome, _ = self.model.add(mrec, cs, merge)
         self.event(op["op"])
         self.event("model_" + outcome)
         self.probe("call_not_observed")
@@ -687,7 +725,7 @@ class C05Machine(Machine):
         if err is not None:
             self.n_reject += 1
             self.fault("rejected_call")
-            if outcome != "reject_invalid":
+            if outcome not in ("reject_invalid", "reject_irregular"):
                 self.rejected.append({"op": op["op"], "record": copy.deepcopy(op["record"]),
                                       "case_sensitive": cs, "merge": merge})
         elif outcome == "merge_new":
